@@ -870,13 +870,15 @@ func (c *Ctx) ruleFullBuildAndRemoval(rule string) {
 					// guarded only by len > 1
 					okG := true
 					for _, g := range x.GuardsOf(call.Block()) {
-						if bo, isB := g.Cond.(*ssa.BinOp); isB {
-							if a, isLen := builtinCall(x.Origin(bo.X), "len"); isLen {
-								if _, isS := x.isFieldLoad(a[0], "KnowledgeContext", "SortRules"); isS {
-									k, _ := constInt(bo.Y)
-									if !((bo.Op == token.GTR && k <= 1 && g.Pol) || (bo.Op == token.GEQ && k <= 2 && g.Pol)) {
-										okG = false
-									}
+						// a length test on the list may only exclude lengths below two
+						if arg, tlo, thi, flo, fhi, isLT := x.lenTest(g.Cond); isLT {
+							if _, isS := x.isFieldLoad(arg, "KnowledgeContext", "SortRules"); isS {
+								lo, hi := tlo, thi
+								if !g.Pol {
+									lo, hi = flo, fhi
+								}
+								if lo > 2 || hi != lenInf {
+									okG = false
 								}
 							}
 						}
